@@ -80,7 +80,7 @@ def gen_args(r, name, maxl=6):
 
 DIVZ = {'mpz_cdiv_q', 'mpz_cdiv_r', 'mpz_cdiv_qr', 'mpz_fdiv_q', 'mpz_fdiv_r', 'mpz_fdiv_qr', 'mpz_tdiv_q', 'mpz_tdiv_r', 'mpz_tdiv_qr', 'mpz_mod'}
 DIVUI = {'mpz_cdiv_q_ui', 'mpz_cdiv_r_ui', 'mpz_cdiv_qr_ui', 'mpz_cdiv_ui', 'mpz_fdiv_q_ui', 'mpz_fdiv_r_ui', 'mpz_fdiv_qr_ui', 'mpz_fdiv_ui',
-         'mpz_tdiv_q_ui', 'mpz_tdiv_r_ui', 'mpz_tdiv_qr_ui', 'mpz_tdiv_ui', 'mpf_div_ui'}
+         'mpz_tdiv_q_ui', 'mpz_tdiv_r_ui', 'mpz_tdiv_qr_ui', 'mpz_tdiv_ui', 'mpf_div_ui', 'mpz_mod_ui'}
 SMALLU = {'mpz_fac_ui': 1500, 'mpz_2fac_ui': 2000, 'mpz_primorial_ui': 3000, 'mpz_fib_ui': 3000, 'mpz_fib2_ui': 3000, 'mpz_lucnum_ui': 3000, 'mpz_lucnum2_ui': 3000,
           'mpf_sqrt_ui': None, 'mpf_pow_ui': 20}
 
